@@ -26,6 +26,9 @@ OBLIGATIONS = [
     "SkVerif.C18.roundtrip_without_labels_witness",
     "SkVerif.C18.parse_writeFixed_roundtrip_nolabels",
     "SkVerif.C18.label_with_question_mark_is_rewritten",
+    "SkVerif.C18.float_tokens_denote_decimal_values",
+    "SkVerif.C18.roundtrip_concrete_values",
+    "SkVerif.C18.all_formats_parse_to_same_panel",
     "SkVerif.C18.parser_rejects_empty_file",
     "SkVerif.C18.parser_rejects_missing_classlabel_tag",
     "SkVerif.C18.parser_rejects_missing_problemname_tag",
